@@ -48,6 +48,11 @@ def fam_sid_strings(v, n):
         ops.append({"op": "sid", "s": s})
         if v.rng.random() < 0.15:
             ops.append({"op": "sid_call", "from": {"s": s}, "m": v.rng.choice(["typed", "len", "uri", "repr"])})
+    # every type forced on a typed string, with and without a trailing newline
+    for _ in range(max(3, n // 60)):
+        label, s, fields = v.typed_sid(search=0.4)
+        for l2 in [l for l in v.labels if len(v.tdict[l]) == len(fields)]:
+            ops.append({"op": "sid", "s": l2 + ":" + s + v.rng.choice(["", "\n", "\n"])})
     # Sid objects handed to the factory (as Finders and Getters do), then the plain string again
     for _ in range(max(3, n // 40)):
         label, s, fields = v.typed_sid(search=0.5)
@@ -315,6 +320,10 @@ def fam_paths(v, n, model):
                 ops.append({"op": "sid", "path": mp, "config": rng.choice([cfg, cfg, None] + configs)})
                 if rng.random() < 0.15:
                     ops.append({"op": "resolve_all", "r": cfg, "s": mp})
+        if rng.random() < 0.3:      # same string, other types: their paths (or None) must not interfere
+            for l2 in [l for l in v.labels if l != label and len(v.tdict[l]) == len(fields)]:
+                ops.append({"op": "sid_call", "from": {"s": l2 + ":" + s}, "m": "path", "config": rng.choice(configs)})
+            ops.append({"op": "sid_call", "from": {"s": s}, "m": "path", "config": rng.choice(configs)})
         if rng.random() < 0.3:
             ops.append({"op": "sid_call", "from": {"s": s}, "m": "path"})
             ops.append({"op": "sid_call", "from": {"s": label + ":" + s}, "m": "path", "config": rng.choice(configs)})
@@ -399,6 +408,12 @@ def fam_listfind(v, n):
                 ops.append({"op": "sid_call", "from": {"s": item}, "m": "match", "search": s})
             if rng.random() < 0.08:
                 ops.append({"op": "glob_match", "pat": s.split("?")[0], "item": rng.choice(L)})
+        # match of entries against star searches built from themselves (any segment, the type code too)
+        for label, fields in leaves[:3]:
+            segs = [val for _, val in fields]
+            for _ in range(2):
+                ss = [("*" if rng.random() < 0.45 else x) for x in segs]
+                ops.append({"op": "sid_call", "from": {"s": "/".join(segs)}, "m": "match", "search": "/".join(ss)})
         # concrete lookups: present and absent
         ops.append({"op": "find_list", "l": L, "s": rng.choice(L), "m": "find", **flags})
         ops.append({"op": "find_list", "l": L, "s": v.typed_sid(search=0)[1], "m": "find", **flags})
@@ -597,6 +612,20 @@ def fam_history(v, n, model):
                 ops.append({"op": "world", "w": wid, "do": "find_all", "s": s.rsplit("/", 1)[0] + "/*" if "/" in s else s})
             if rng.random() < 0.1:
                 ops.append({"op": "world", "w": wid, "do": "dump"})
+        # a version workflow on one leaf: ask for the last, create a greater one, ask again
+        label, fields = leaves[0]
+        keys = [k for k, _ in fields]
+        if "version" in keys:
+            vi = keys.index("version")
+            vals = [val for _, val in fields]
+            for n in sorted(rng.sample(range(1, 60), 3)):
+                vals2 = list(vals)
+                vals2[vi] = "v%03d" % n
+                sv = "/".join(vals2)
+                ops.append({"op": "world", "w": wid, "do": "create", "sid": sv, "config": default})
+                for probe in (sv, "/".join(vals2[:vi + 1]), "/".join(vals2[:vi])):
+                    ops.append({"op": "world", "w": wid, "do": "get_last", "sid": probe, "key": "version"})
+                ops.append({"op": "world", "w": wid, "do": "get_new", "sid": sv})
         ops.append({"op": "world", "w": wid, "do": "dump"})
     return ops
 
